@@ -179,6 +179,17 @@ func init() {
 			ex.concreteCopies = true
 			return nil
 		},
+		"Inconclusive": func(ex *Exec, fn *ssa.Function, args []Value) Value {
+			panic(unsupported{"harness cannot observe: " + ex.argStr(args[0], "reason")})
+		},
+		"Goroutines": func(ex *Exec, fn *ssa.Function, args []Value) Value {
+			ex.allowGo = true
+			return nil
+		},
+		"Yield": func(ex *Exec, fn *ssa.Function, args []Value) Value {
+			ex.yield()
+			return nil
+		},
 		"NativeUnsupported": func(ex *Exec, fn *ssa.Function, args []Value) Value {
 			ex.nativeUnsupported = true
 			return nil
@@ -345,6 +356,44 @@ func init() {
 		"context.WithCancel": intrWithCancel,
 		"context.Background": func(ex *Exec, fn *ssa.Function, args []Value) Value {
 			return IfaceV{T: ex.eng.namedType("context", "backgroundCtx"), V: ex.zero(ex.eng.namedType("context", "backgroundCtx"))}
+		},
+		// sync.Map used sequentially: a map with concrete keys attached to the receiver's node
+		"(*sync.Map).Load": func(ex *Exec, fn *ssa.Function, args []Value) Value {
+			v, ok := ex.mapGet(MapV{M: ex.syncMapOf(args[0])}, args[1])
+			if !ok {
+				return TupleV{IfaceV{}, BoolV{ex.tf.False}}
+			}
+			return TupleV{v, BoolV{ex.tf.True}}
+		},
+		"(*sync.Map).Store": func(ex *Exec, fn *ssa.Function, args []Value) Value {
+			ex.mapSet(MapV{M: ex.syncMapOf(args[0])}, args[1], args[2])
+			return nil
+		},
+		"(*sync.Map).LoadOrStore": func(ex *Exec, fn *ssa.Function, args []Value) Value {
+			m := MapV{M: ex.syncMapOf(args[0])}
+			if v, ok := ex.mapGet(m, args[1]); ok {
+				return TupleV{v, BoolV{ex.tf.True}}
+			}
+			ex.mapSet(m, args[1], args[2])
+			return TupleV{args[2], BoolV{ex.tf.False}}
+		},
+		"(*sync.Map).Delete": func(ex *Exec, fn *ssa.Function, args []Value) Value {
+			ex.syncMapDelete(ex.syncMapOf(args[0]), args[1])
+			return nil
+		},
+		"(*sync.Map).LoadAndDelete": func(ex *Exec, fn *ssa.Function, args []Value) Value {
+			m := ex.syncMapOf(args[0])
+			v, ok := ex.mapGet(MapV{M: m}, args[1])
+			if !ok {
+				return TupleV{IfaceV{}, BoolV{ex.tf.False}}
+			}
+			ex.syncMapDelete(m, args[1])
+			return TupleV{v, BoolV{ex.tf.True}}
+		},
+		"(*sync.Map).Clear": func(ex *Exec, fn *ssa.Function, args []Value) Value {
+			m := ex.syncMapOf(args[0])
+			m.keys, m.vals = nil, nil
+			return nil
 		},
 		"(*sync.Pool).Get":        intrPoolGet,
 		"(*sync.Pool).Put":        intrPoolPut,
@@ -934,4 +983,33 @@ func intrEqualFold(ex *Exec, fn *ssa.Function, args []Value) Value {
 	ex.timeSeq++
 	ex.intrUsed["strings.EqualFold of non-ASCII symbolic text: unconstrained result (over-approximation)"] = true
 	return BoolV{tf.Var(fmt.Sprintf("equalfold#%d.%d", len(ex.decs), ex.timeSeq), 0)}
+}
+
+// ---------- sync.Map (sequential use) ----------
+
+func (ex *Exec) syncMapOf(recv Value) *MapObj {
+	p := recv.(PtrV)
+	if ex.syncMaps == nil {
+		ex.syncMaps = map[Node]*MapObj{}
+	}
+	m := ex.syncMaps[p.N]
+	if m == nil {
+		m = &MapObj{}
+		ex.syncMaps[p.N] = m
+	}
+	return m
+}
+
+func (ex *Exec) syncMapDelete(m *MapObj, k Value) {
+	for i, kk := range m.keys {
+		e := ex.valEq(kk, k)
+		if !e.IsConst() {
+			panic(unsupported{"sync.Map with symbolic key"})
+		}
+		if e.IsTrue() {
+			m.keys = append(m.keys[:i], m.keys[i+1:]...)
+			m.vals = append(m.vals[:i], m.vals[i+1:]...)
+			return
+		}
+	}
 }
